@@ -309,7 +309,7 @@ def check_tags(rep, part, tier):
             rep.sample({"tag": tag, "mode": mode, "path": r[1].hex()})
 
 
-def check_upload_paths(rep, pn, pers):
+def check_upload_paths(rep, pn, pers, page=0):
     """The request paths of a whole tag-list / template upload, as parsed by the target's strict parser, denote objects of
     the project: symbol class (optionally inside 'Program:<name>' for every program of the project, names of odd and even
     length) and template instances that exist."""
@@ -321,6 +321,7 @@ def check_upload_paths(rep, pn, pers):
     progs = {t.name for t in proj.symbols if t.kind == "program"}
     tids = set(proj.types)
     ctl = logix.LogixController(proj, pers)
+    ctl.force_page = page
     t = make_target(ctl)
     with net.World(t, io_budget=10**8):
         d = pycomm3.LogixDriver("10.0.0.1")
@@ -339,10 +340,16 @@ def check_upload_paths(rep, pn, pers):
                 elif len(rest) != 2 or rest[0] != ("class", 0x6B) or rest[1][0] != "instance":
                     bad = "not an instance of the symbol class"
                 asked.add(scope[0][1] if scope else None)
+                # a continuation (start instance > 0) must ask for instances of the scope it continues: the instance it names exists there or lies behind its last
+                if not bad and rest[1][1] > 0:
+                    syms = proj.programs.get(scope[0][1][len("Program:"):], []) if scope else proj.symbols
+                    ids = sorted(s_.instance_id for s_ in syms)
+                    if rest[1][1] - 1 not in ids:
+                        bad = f"continuation from instance {rest[1][1]} in scope {scope[0][1] if scope else 'controller'}: the previous reply of that scope cannot have ended at instance {rest[1][1] - 1} (instances there: {ids[:8]}…)"
             elif path[:1] == [("class", 0x6C)]:
                 if len(path) != 2 or path[1][0] != "instance" or path[1][1] not in tids:
                     bad = f"template instance {path[1:]!r} does not exist"
-            rep.case(("upload-path", pn, pers, svc, tuple(path)), outcome="ok" if not bad else "bad")
+            rep.case(("upload-path", pn, pers, page, svc, tuple(path)), outcome="ok" if not bad else "bad")
             if bad:
                 rep.violation("upload/request-path", f"{pn}/{pers}: service {svc:#04x} path {path!r} (raw {e['raw_path'].hex()}): {bad}", {"kind": "upload-paths", "project": pn, "pers": pers})
         for tag, detail in t.events[n_ev:]:
@@ -353,6 +360,31 @@ def check_upload_paths(rep, pn, pers):
         for c in t.connections.values():
             if list(c.route) != want_route:
                 rep.violation("upload/forward-open-route", f"{pn}/{pers}: Forward Open connection path routes along {list(c.route)!r}, the driver's route is {want_route!r}", {"kind": "upload-paths", "project": pn, "pers": pers})
+        if page:
+            # with a fixed number of symbols per reply the whole request sequence is determined: per scope, start instances 0, last+1, last'+1, ...
+            want_seq = []
+            for scope_name, syms in [(None, proj.symbols)] + [("Program:" + pnm, lst) for pnm, lst in proj.programs.items() if "Program:" + pnm in progs]:
+                ids = sorted(s_.instance_id for s_ in syms)
+                start, i = 0, 0
+                while True:
+                    want_seq.append((scope_name, start))
+                    chunk = [x for x in ids if x >= start][:page]
+                    rest_ids = [x for x in ids if x >= start][page:]
+                    if not rest_ids:
+                        break
+                    start = chunk[-1] + 1
+            got_seq = []
+            for e in t.cip_log:
+                if e["service"] == 0x55:
+                    pth = [tuple(x) for x in e["path"]]
+                    sc = [x[1] for x in pth if x[0] == "symbol"]
+                    inst = [x[1] for x in pth if x[0] == "instance"]
+                    got_seq.append((sc[0] if sc else None, inst[0] if inst else None))
+            if sorted(map(str, got_seq)) != sorted(map(str, want_seq)):
+                extra = [x for x in got_seq if x not in want_seq][:3]
+                lack = [x for x in want_seq if x not in got_seq][:3]
+                rep.violation("upload/continuation-scope", f"{pn}/{pers}, {page} symbol(s) per reply: symbol-list requests (scope, start instance) not asked as the replies demand: unexpected {extra!r}, never asked {lack!r}",
+                              {"kind": "upload-paths", "project": pn, "pers": pers})
         missing = (progs | {None}) - asked
         if o != ("ok", True) or missing:
             rep.violation("upload/scope-not-addressed", f"{pn}/{pers}: open() -> {o!r:.80}; scopes never addressed: {sorted(map(str, missing))}", {"kind": "upload-paths", "project": pn, "pers": pers})
@@ -384,7 +416,8 @@ def run_shard(shard, tier, seed):
     elif k == "tags":
         check_tags(rep, shard[1], tier)
     elif k == "upload-paths":
-        check_upload_paths(rep, shard[1], shard[2])
+        for page in (0, 1, 2):  # symbol lists in one reply, one symbol per reply, two per reply: continuation requests must keep their scope
+            check_upload_paths(rep, shard[1], shard[2], page)
     elif k == "route-history":
         # emitted routes (Unconnected Send route path, Forward Open connection path) on a live driver must denote the
         # configured route whatever helper calls came before: C14's history exploration, path observations only
